@@ -95,7 +95,13 @@ class BaseResponse:
         ''' Returns a copy of self. '''
         cls = cls or BaseResponse
         assert issubclass(cls, BaseResponse)
-        copy = cls(status = self.status, headers = self.headers.copy().dict)
+        # the stored headers, one pair per value (`self.headers` may be another object's view, see redirect())
+        headers = [
+            (name, val)
+            for name, vals in self._headers.items()
+            for val in (vals if isinstance(vals, list) else [vals])
+        ]
+        copy = cls(status = self.status, headers = headers)
         if self._cookies:
             copy._cookies = SimpleCookie()
             copy._cookies.load(self._cookies.output(header=''))
